@@ -37,7 +37,7 @@ func VerifC10Threads() {
 		th := th
 		kind := vnd.IntRange("kind", 0, vnd.Param("KINDMAX", 1))
 		li := vnd.IntRange("list", 0, vnd.Param("LISTMAX", len(c10lists)-1))
-		commit := vnd.Bool("commit")
+		commit := vnd.Param("COMMITONLY", 0) == 1 || vnd.Bool("commit")
 		wg.Add(1)
 		vnd.Go(func() {
 			defer wg.Done()
